@@ -62,7 +62,9 @@ def enumerate_cases(tier, scope):
     ]
     # finishes, then its on_finished hook raises: the process ends EXCEPTED with an outcome future that was already resolved
     hookfail = {'steps': [gen.S([['out', 'h', 1]], ['wait', 1, None, None]), gen.S([['out', 'g', 2]], ['value', 6])], 'raise_in_hook': ['on_finished', 'post']}
-    progs = [RICH, cat['waitwait'], cat['failing'], cat['selfkill'], cat['chain'], SPECD, CODEC, hookfail]
+    # parks itself with a message and data but without a continuation (it is ended by kill or fail, not resumed)
+    parked = {'steps': [gen.S([['out', 'p', 1]], ['wait', None, 'parked', {'d': [TUP, 2]}])]}
+    progs = [RICH, cat['waitwait'], cat['failing'], cat['selfkill'], cat['chain'], SPECD, CODEC, hookfail, parked]
     for prog in progs:
         for sched in scheds:
             for loader in ('default', 'custom', 'custom-arg'):
@@ -116,7 +118,7 @@ def _cases(draw, tier):
                 )
             )
         elif draw(st.booleans()):
-            ret = ['wait', idx + 1, draw(st.sampled_from([None, 'msg'])), draw(VALS)]
+            ret = ['wait', idx + 1 if draw(st.integers(0, 5)) else None, draw(st.sampled_from([None, 'msg'])), draw(VALS)]
         else:
             ret = ['continue', idx + 1, draw(st.lists(VALS, max_size=2)), draw(st.dictionaries(st.sampled_from(['p', 'q']), VALS, max_size=2))]
         steps.append({'async': is_async, 'body': body, 'ret': ret})
@@ -187,7 +189,8 @@ def _load_and_resave(ckpt, medium, loader, how='unbundle'):
         ex.proc = proc
         out['observed'] = observe(proc)
         try:
-            out['bundle'] = copy.deepcopy(media.bundle_of(proc, loader))
+            # (every other point is saved again as a dereferenced bundle, the kind the in-memory persister keeps)
+            out['bundle'] = copy.deepcopy(media.bundle_of(proc, loader, dereference=ckpt['index'] % 2 == 1))
         except Exception as exc:  # noqa: BLE001
             out['save_error'] = exc
     return out
